@@ -296,6 +296,8 @@ def run_check(mod, tier: str, seed: int, only: str = None) -> int:
         outcomes.update(r["outcomes"])
         if r["samples"] and len(samples) < 8:
             samples.append(r["samples"][0])
+        for v in r["violations"]:
+            v["_chunk"] = r["key"]
         violations.extend(r["violations"])
         sigcount.update(r["sigcount"])
         exhaustive = exhaustive and r["exhaustive"]
@@ -337,8 +339,18 @@ def run_check(mod, tier: str, seed: int, only: str = None) -> int:
         if v["case"] is not None:
             ok = confirm_replay(path)
             if not ok:
-                sys.stderr.write(f"HARNESS-ERROR property={pid}: violation {sig} did not reproduce identically on replay: {path}\n")
-                return 2
+                # The single case does not fail in a fresh interpreter: the failure may need the cases that ran before
+                # it (state leaking between calls). Re-run the whole chunk in a fresh interpreter; if the same
+                # signature recurs there (twice, identically) the violation is real and the chunk is its replay.
+                chunk = next((c for c in chunks if c["key"] == v.get("_chunk")), None)
+                if chunk is not None:
+                    hv = dict(v, case={"kind": "__chunk__", "chunk": chunk, "tier": tier, "seed": seed, "failing_case": v["case"]}, note=(v.get("note", "") + " [history-dependent: fails only after the preceding cases of its chunk]").strip())
+                    path = write_replay(mod, hv)
+                    ok = confirm_replay(path)
+                if not ok:
+                    sys.stderr.write(f"HARNESS-ERROR property={pid}: violation {sig} did not reproduce identically on replay: {path}\n")
+                    return 2
+                sys.stderr.write(f"  signature={sig}: reproduces only with the preceding cases of chunk {chunk['key']}\n")
         lines.append(f"VIOLATION property={pid} replay={path}")
         sys.stderr.write(f"  signature={sig} cases={sigcount.get(sig, len(vs))} note={v.get('note', '')}\n")
     for sig, k in open_sigs.items():
@@ -416,6 +428,7 @@ def _json_default(o):
 def write_replay(mod, v) -> str:
     d = os.path.join(REPLAY_DIR, mod.ID)
     os.makedirs(d, exist_ok=True)
+    v = {k: x for k, x in v.items() if k != "_chunk"}
     body = {
         "property": mod.ID,
         "check": mod.__name__,
@@ -459,7 +472,23 @@ def replay_file(path) -> int:
         body = json.load(f)
     mod = importlib.import_module(body["check"])
     reset_environment(0)
-    res = mod.replay(body["case"])
+    case = body["case"]
+    if isinstance(case, dict) and case.get("kind") == "__chunk__":
+        acc = Acc(case["chunk"]["key"], case["tier"], case["seed"])
+        reset_environment(case["seed"])
+        mod.run_chunk(case["chunk"], acc)
+        hit = [v for v in acc.violations if v["signature"] == body["signature"]]
+        print(f"property={body['property']} signature={body['signature']} (chunk replay: {case['chunk']['key']})")
+        print("failing case =", json.dumps(case.get("failing_case"), sort_keys=True, default=_json_default)[:3000])
+        if hit:
+            print("expected =", json.dumps(hit[0]["expected"], sort_keys=True, default=_json_default)[:3000])
+            print("observed =", json.dumps(hit[0]["observed"], sort_keys=True, default=_json_default)[:3000])
+            print(f"occurrences in chunk = {acc.sigcount[body['signature']]}")
+            print("RESULT: REPRODUCED")
+            return 1
+        print("RESULT: property holds on this chunk (violation does not reproduce)")
+        return 0
+    res = mod.replay(case)
     print(f"property={body['property']} signature={body['signature']}")
     print("case     =", json.dumps(body["case"], sort_keys=True, default=_json_default)[:4000])
     print("expected =", json.dumps(res.get("expected"), sort_keys=True, default=_json_default)[:4000])
